@@ -235,6 +235,14 @@ def oracle(ctx):
                 stale_root = {k: v for k, v in stale_root.items() if k in keep}
     ctx.stats["dispatched_steps"] = dispatched
     ctx.stats["dispatched_declared_optional"] = built_optional
+    # targeted family: several consumers of different need on one optional output, the higher one drops
+    M.run_multi_consumer_family(M.MULTI_VARIANTS, fail,
+                                lambda v, obs: ctx.case(("multi-consumer", v[0]), True))
+    ctx.count("multi_consumer_cases", len(M.MULTI_VARIANTS))
+    if ctx.thorough():
+        for sig, detail, wit in three_build_history():
+            fail(sig, "three-build-history", detail, wit)
+        ctx.case(("three-build-history",), True)
     # the Coq witness of C11_unneeded_step_dispatched_refuted_for_sink_only_trigger on the real code
     r = run(M.replay_d8(), timeout=60)
     ctx.case(("replay", "d8"), True)
@@ -253,7 +261,92 @@ def oracle(ctx):
                 "dispatched": dispatched})
 
 
+PLAN_PY = """#!/usr/bin/env python3
+from stepup.core.api import copy, run, static
+
+static("data.txt", "flag.txt", "work.py")
+copy("data.txt", "opt.txt", optional=True)
+copy("opt.txt", "c2.txt", optional=True)
+run("./work.py", inp=["work.py", "flag.txt"], out="work.out")
+"""
+WORK_PY = """#!/usr/bin/env python3
+from stepup.core.api import amend
+
+with open("flag.txt") as fh:
+    use = fh.read().strip() == "use"
+if use:
+    amend(inp="opt.txt")
+with open("work.out", "w") as fh:
+    fh.write("done\\n")
+"""
+
+
+def three_build_history():
+    """System level (real `stepup build` three times in a temporary directory): an optional copy whose
+    output is (1) amended by a DEFAULT step and also the initial input of an OPTIONAL step nothing needs,
+    (2) no longer amended, (3) edited input. After (2) the optional output must be removed, (3) must not
+    run the optional copy. Returns (signature, detail, witness) triples."""
+    import subprocess
+    import tempfile
+    env = dict(os.environ, PATH="/venv/bin:" + os.environ.get("PATH", ""), PYTHONPATH=str(common.REPO),
+               STEPUP_ROOT="", COLUMNS="200")
+    env.pop("STEPUP_ROOT")
+    out = []
+    with tempfile.TemporaryDirectory() as d:
+        def write(name, text, mode=0o644):
+            path = os.path.join(d, name)
+            with open(path, "w") as fh:
+                fh.write(text)
+            os.chmod(path, mode)
+
+        def build():
+            p = subprocess.run(["timeout", "120", "stepup", "build", "-j", "1"], cwd=d, env=env,
+                               capture_output=True, text=True)
+            return p.returncode, p.stdout + p.stderr
+
+        write("plan.py", PLAN_PY, 0o755)
+        write("work.py", WORK_PY, 0o755)
+        write("data.txt", "one\n")
+        write("flag.txt", "use\n")
+        rc1, log1 = build()
+        ok1 = rc1 == 0 and os.path.exists(os.path.join(d, "opt.txt")) and not os.path.exists(os.path.join(d, "c2.txt"))
+        if not ok1:
+            return [("three-build-history:setup", f"first build did not produce the expected files (rc={rc1})",
+                     {"log": log1[-1500:]})]
+        write("flag.txt", "skip\n")
+        rc2, log2 = build()
+        if rc2 != 0 or os.path.exists(os.path.join(d, "opt.txt")):
+            out.append(("three-build-history:optional-output-not-removed",
+                        "after the DEFAULT step stopped amending opt.txt (its other consumer is OPTIONAL and unneeded) a "
+                        f"successful unrestricted build (rc={rc2}) leaves opt.txt on disk",
+                        {"build": 2, "log": log2[-1500:]}))
+        write("data.txt", "two\n")
+        rc3, log3 = build()
+        if "cp -p data.txt opt.txt" in "\n".join(l for l in log3.splitlines() if "START" in l) \
+                or os.path.exists(os.path.join(d, "opt.txt")):
+            out.append(("three-build-history:unneeded-optional-step-executed",
+                        "after an edit of its input the OPTIONAL copy that nothing needs was executed",
+                        {"build": 3, "log": log3[-1500:]}))
+    return out
+
+
 def search(ctx):
+    """First the targeted family with random members and the system-level three-build history, then
+    more and longer random histories."""
+    import random
+    found = []
+    rng = random.Random(f"C11-search-{ctx.seed}")
+    M.run_multi_consumer_family([M.random_multi_variant(rng) for _ in range(60)],
+                                lambda sig, name, detail, wit: found.append((sig, name, detail, wit)))
+    for sig, detail, wit in three_build_history():
+        found.append((sig, "three-build-history", detail, wit))
+    seen = set()
+    for sig, name, detail, wit in found:
+        if sig not in seen:
+            seen.add(sig)
+            ctx.add_failure("oracle", name, sig, detail, witness=wit)
+    if found:
+        return
     ctx._c10_hist = None
     old = ctx.tier
     ctx.tier = "thorough"
